@@ -91,12 +91,13 @@ def run(tier):
     elif narr < 256:
         raise ToolError("vacuity: %d (class, operand kinds, operator) array cases, expected 256" % narr)
     chk.cov["array_cases"] = narr
-    chk.cov["programs"] = rep.get("programs", "")
+    chk.cov["programs_replayed_note"] = rep.get("programs", "")
     nprogcases = len([k for k in rep["per_case"] if "|program n" in k])
     nprogops = len([k for k in rep["per_case"] if k.startswith("prog-op|")])
     if nprogcases < 16 or nprogops < 30:
         raise ToolError("vacuity: whole programs replayed on %d (class, arity) cases with %d distinct operations" % (nprogcases, nprogops))
     chk.cov["program_cases"] = sum(v for k, v in rep["per_case"].items() if "|program n" in k)
+    chk.cov["programs"] = chk.cov["program_cases"] // 8
     nvec = len([k for k in rep["per_case"] if k.startswith("vec-class|")])
     if nvec < 24:
         raise ToolError("vacuity: %d vector-class capture cases, expected 24" % nvec)
